@@ -36,7 +36,9 @@ BinaryClass(text) ==
 
 \* standard layout: debian-binary, control, data first, in that order
 Standard(ms) == /\ Len(ms) >= 3 /\ ms[1].role = "binary" /\ ms[2].role = "control" /\ ms[3].role = "data"
-                /\ \A i \in 4..Len(ms) : ms[i].role \in {"extra", "sig"}
+                /\ \A i \in 4..Len(ms) : ms[i].role \in {"extra", "sig", "extra-ctl", "extra-dat"}
+\* (extra-ctl / extra-dat: tarballs shaped like a control or data member under a name that does NOT begin with
+\*  "control." / "data.", e.g. "control_.tar.gz": just extra members)
 
 HasControlFile(m) == \E k \in 1..Len(m.files) : m.files[k].kind = "control"
 
